@@ -4,7 +4,9 @@ import (
 	"fmt"
 	"math"
 	"os"
+	"regexp"
 	"runtime"
+	"strconv"
 	"strings"
 	"sync/atomic"
 	"syscall"
@@ -22,6 +24,7 @@ type CostCase struct {
 	N2     int      `json:"n2"`
 	Expr   string   `json:"expr,omitempty"` // absolute case: the literal input
 	List   []string `json:"list,omitempty"`
+	Schema *Schema  `json:"schema,omitempty"` // generated family
 }
 
 func init() {
@@ -297,7 +300,9 @@ func judge(c CostCase, s1, s2 costSample) Outcome {
 				c.Entry, c.Family, s1.Alloc>>10, c.N1, s1.L, s2.Alloc>>10, c.N2, s2.L, e, c14MaxExponent)
 		}
 	}
-	if s2.CPU > c14CPUFloor && s1.CPU > 0 {
+	// CPU time is only judged against a sample at most 2/3 as long: over a short step a factor-2
+	// measurement noise would already look like a high exponent
+	if s2.CPU > c14CPUFloor && s1.CPU > 0 && 3*s1.L <= 2*s2.L {
 		if e := exponent(float64(s1.CPU), float64(s2.CPU), s1.L, s2.L); e > c14MaxCPUExp {
 			return fail(key, "%s on family %s: CPU time grows from %v (n=%d, %d bytes of input) to %v (n=%d, %d bytes): local exponent %.1f over input length, more than %.0f",
 				c.Entry, c.Family, s1.CPU, c.N1, s1.L, s2.CPU, c.N2, s2.L, e, c14MaxCPUExp)
@@ -306,8 +311,33 @@ func judge(c CostCase, s1, s2 costSample) Outcome {
 	return pass()
 }
 
+// judgeSeries judges the newest sample against its predecessor (allocation, absolute bounds) and
+// against the latest earlier sample that is at most 2/3 as long (CPU time).
+func judgeSeries(c CostCase, ns []int, hist []costSample, s2 costSample) Outcome {
+	if len(hist) == 0 {
+		return judge(c, s2, s2)
+	}
+	c.N1 = ns[len(hist)-1]
+	if out := judge(c, hist[len(hist)-1], s2); !out.OK {
+		return out
+	}
+	for i := len(hist) - 1; i >= 0; i-- {
+		if 3*hist[i].L <= 2*s2.L {
+			c.N1 = ns[i]
+			return judge(c, hist[i], s2)
+		}
+	}
+	return pass()
+}
+
 // checkC14Growth measures n1 and n2 of a family (used by replay; the sweep reuses its samples).
 func checkC14Growth(c CostCase, prev *costSample) Outcome {
+	if c.Schema != nil {
+		return checkC14Schema(c)
+	}
+	if c.N1 <= 0 {
+		c.N1 = c.N2
+	}
 	e1, l1 := buildFamily(c.Family, c.N1)
 	e2, l2 := buildFamily(c.Family, c.N2)
 	var s1 costSample
@@ -404,7 +434,8 @@ func TestC14_Families(t *testing.T) {
 			if cfg.Thorough() {
 				max = f.maxT
 			}
-			var prev *costSample
+			var hist []costSample
+			var ns []int
 			prevN := 0
 			for n := f.start; n <= max; {
 				c := CostCase{Family: f.name, Entry: entry, N1: prevN, N2: n}
@@ -418,12 +449,11 @@ func TestC14_Families(t *testing.T) {
 				}
 				rec.Case(n >= 8, fmt.Sprintf("%s/%d/%s", f.name, n, entry),
 					map[string]any{"family": f.name, "n": n, "entry": entry, "input_bytes": s.L, "alloc_bytes": s.Alloc, "mallocs": s.Malloc, "cpu_ms": s.CPU.Milliseconds(), "input_head": firstN(expr, 70)}, "family-"+f.name)
-				if prev != nil {
-					if out := judge(c, *prev, s); !out.OK {
-						rec.Violate("c14-growth", out.Key, out.Msg, c)
-						break
+				if out := judgeSeries(c, ns, hist, s); !out.OK {
+					// the baseline the verdict used is recorded for the replay
+					if m := regexp.MustCompile(`\(n=(\d+),`).FindStringSubmatch(out.Msg); m != nil {
+						c.N1, _ = strconv.Atoi(m[1])
 					}
-				} else if out := judge(CostCase{Family: f.name, Entry: entry, N1: n, N2: n}, s, s); !out.OK {
 					rec.Violate("c14-growth", out.Key, out.Msg, c)
 					break
 				}
@@ -431,8 +461,7 @@ func TestC14_Families(t *testing.T) {
 					rec.Note("%s/%s: escalation stopped at n=%d (alloc %d MB, cpu %v)", f.name, entry, n, s.Alloc>>20, s.CPU)
 					break
 				}
-				sc := s
-				prev, prevN = &sc, n
+				hist, ns, prevN = append(hist, s), append(ns, n), n
 				if f.product {
 					step := n / 4
 					if step < 1 {
@@ -522,4 +551,167 @@ func drawBlowupTree(rt *rapid.T, nTerms int) *Node {
 		top.Kids = append(top.Kids, group(rapid.IntRange(0, 2).Draw(rt, fmt.Sprintf("gd%d", i)), fmt.Sprintf("g%d.", i)))
 	}
 	return top
+}
+
+// ---- generated families: unit op unit op ... op tail
+
+type Schema struct {
+	Unit    string   `json:"unit"`    // a small expression with %d placeholders for ids, e.g. "%s AND %s"
+	UnitIDs int      `json:"unit_ids"`
+	Op      string   `json:"op"`
+	Tail    string   `json:"tail"`    // "" or a small expression appended after the last op
+	Nest    string   `json:"nest"`    // flat | left | right
+	Paren   bool     `json:"paren"`   // parenthesise every unit
+	Vary    bool     `json:"vary"`    // cycle ids per repetition (otherwise every unit is identical)
+	List    []string `json:"list"`
+}
+
+func (sc *Schema) build(n int) string {
+	unit := func(i int) string {
+		args := make([]any, sc.UnitIDs)
+		for j := range args {
+			k := j
+			if sc.Vary {
+				k = i*sc.UnitIDs + j
+			}
+			args[j] = cyc(c14IDs, k)
+		}
+		u := fmt.Sprintf(sc.Unit, args...)
+		if sc.Paren {
+			u = "(" + u + ")"
+		}
+		return u
+	}
+	var expr string
+	switch sc.Nest {
+	case "left":
+		expr = unit(0)
+		for i := 1; i < n; i++ {
+			expr = "(" + expr + " " + sc.Op + " " + unit(i) + ")"
+		}
+	case "right":
+		expr = unit(n - 1)
+		for i := n - 2; i >= 0; i-- {
+			expr = "(" + unit(i) + " " + sc.Op + " " + expr + ")"
+		}
+	default:
+		parts := make([]string, n)
+		for i := range parts {
+			parts[i] = unit(i)
+		}
+		expr = strings.Join(parts, " "+sc.Op+" ")
+	}
+	if sc.Tail != "" {
+		expr += " " + sc.Op + " " + sc.Tail
+	}
+	return expr
+}
+
+// drawUnit draws a small expression template over k ids.
+func drawUnit(rt *rapid.T, label string, maxIDs int) (string, int) {
+	k := rapid.IntRange(1, maxIDs).Draw(rt, label+"k")
+	parts := make([]string, k)
+	for i := range parts {
+		parts[i] = "%s"
+		if rapid.IntRange(0, 5).Draw(rt, fmt.Sprintf("%splus%d", label, i)) == 0 {
+			parts[i] = "%s+"
+		}
+	}
+	expr := parts[0]
+	for i := 1; i < k; i++ {
+		op := rapid.SampledFrom([]string{"AND", "OR"}).Draw(rt, fmt.Sprintf("%sop%d", label, i))
+		if rapid.IntRange(0, 3).Draw(rt, fmt.Sprintf("%sgrp%d", label, i)) == 0 {
+			expr = "(" + expr + ") " + op + " " + parts[i]
+		} else {
+			expr = expr + " " + op + " " + parts[i]
+		}
+	}
+	return expr, k
+}
+
+// schemaSizes is the escalation schedule of a generated family: dense, so that an exponential
+// family is stopped within a few seconds of CPU time.
+func schemaSizes(limit int) []int {
+	var out []int
+	for n := 2; n <= limit; {
+		out = append(out, n)
+		switch {
+		case n < 12:
+			n += 2
+		default:
+			n += 1 + n/12
+		}
+	}
+	return out
+}
+
+func checkC14Schema(c CostCase) Outcome {
+	var hist []costSample
+	var ns []int
+	for _, n := range schemaSizes(c.N2) {
+		expr := c.Schema.build(n)
+		s, p := measure(c.Entry, expr, c.Schema.List)
+		if p != "" {
+			return fail("C14/panic/"+expr, "panic: %s", p)
+		}
+		cc := c
+		cc.N2 = n
+		cc.Family = "generated " + c.Schema.describe()
+		if out := judgeSeries(cc, ns, hist, s); !out.OK {
+			out.Key = fmt.Sprintf("C14/growth/generated/%s/%s", c.Entry, c.Schema.describe())
+			return out
+		}
+		if s.Alloc > 256<<20 || s.CPU > 3*time.Second {
+			break
+		}
+		hist, ns = append(hist, s), append(ns, n)
+	}
+	return pass()
+}
+
+func (sc *Schema) describe() string {
+	p := ""
+	if sc.Paren {
+		p = "()"
+	}
+	v := "same"
+	if sc.Vary {
+		v = "varying"
+	}
+	return fmt.Sprintf("[%s]%s %s ... %s tail[%s] %s ids, list %v", sc.Unit, p, sc.Op, sc.Nest, sc.Tail, v, sc.List)
+}
+
+func TestC14_GeneratedFamilies(t *testing.T) {
+	cfg := Cfg()
+	limit := cfg.Pick(80, 200)
+	rec := NewRecorder("C14", "generated-families", fmt.Sprintf("rapid-generated input families 'unit op unit op ... op tail' (unit and tail: generated small expressions of 1-3 ids with generated operators, parentheses and '+'; joined flat without parentheses, or left- / right-nested; identical or varying ids; generated allowed list), each escalated over n = 2..%d repetitions on a dense schedule through Satisfies and ExtractLicenses; same growth-law oracle as the fixed families (CPU judged against a sample at most 2/3 as long); non-trivial = the family reached n >= 16; distinct by schema", limit))
+	defer rec.Finish(t)
+	stop := startWatchdog(rec, t)
+	defer stop()
+	rec.Rapid(t, func(rt *rapid.T) {
+		sc := &Schema{Op: rapid.SampledFrom([]string{"AND", "OR"}).Draw(rt, "op"), Nest: rapid.SampledFrom([]string{"flat", "flat", "left", "right"}).Draw(rt, "nest"),
+			Paren: rapid.Bool().Draw(rt, "paren"), Vary: rapid.Bool().Draw(rt, "vary")}
+		sc.Unit, sc.UnitIDs = drawUnit(rt, "u", 3)
+		if rapid.Bool().Draw(rt, "hasTail") {
+			tpl, k := drawUnit(rt, "t", 2)
+			args := make([]any, k)
+			for i := range args {
+				args[i] = cyc(c14IDs, 5+i)
+			}
+			sc.Tail = fmt.Sprintf(tpl, args...)
+		}
+		for i, n := 0, rapid.IntRange(1, 3).Draw(rt, "listLen"); i < n; i++ {
+			sc.List = append(sc.List, rapid.SampledFrom(append(append([]string{}, c14IDs...), "Apache-2.0", "GPL-2.0-only")).Draw(rt, fmt.Sprintf("a%d", i)))
+		}
+		for _, entry := range []string{"satisfies", "extract"} {
+			c := CostCase{Family: "generated", Entry: entry, N2: limit, Schema: sc}
+			c14Current.Store(&c)
+			out := checkC14Schema(c)
+			c14Current.Store((*CostCase)(nil))
+			if !out.OK {
+				rec.Fail(rt, "c14-growth", out.Key, out.Msg, c)
+			}
+		}
+		rec.Case(true, sc.describe(), map[string]any{"schema": sc.describe(), "n=6": sc.build(6)}, "nest-"+sc.Nest, "op-"+sc.Op)
+	})
 }
